@@ -413,9 +413,67 @@ func ruleTokenWidth(c *Ctx) {
 		return
 	}
 	fname := c.P.declName(tokFd)
-	// kinds mentioned in a case clause / condition whose body assigns `length`
-	adjusted := map[string]bool{}
+	// where the length is computed: the variable stored into the token's length field, or the body of the
+	// module function whose result is stored there
+	scope := ast.Node(tokFd.Body)
+	sinfo := info
+	var lenVars []types.Object
+	viaReturn := false
 	ast.Inspect(tokFd.Body, func(x ast.Node) bool {
+		cl, ok := x.(*ast.CompositeLit)
+		if !ok || !typeHasSuffix(info.TypeOf(cl), "internal/server.semanticToken") {
+			return true
+		}
+		for _, el := range cl.Elts {
+			kv, ok := el.(*ast.KeyValueExpr)
+			if !ok || identOf(kv.Key).Name != "length" {
+				continue
+			}
+			v := ast.Unparen(kv.Value)
+			// strip a conversion uint32(x)
+			if call, ok := v.(*ast.CallExpr); ok && len(call.Args) == 1 {
+				if tv, ok := info.Types[call.Fun]; ok && tv.IsType() {
+					v = ast.Unparen(call.Args[0])
+				}
+			}
+			switch y := v.(type) {
+			case *ast.Ident:
+				if o := info.Uses[y]; o != nil {
+					lenVars = append(lenVars, o)
+				}
+			case *ast.CallExpr:
+				if o, ok := calleeOf(info, y).(*types.Func); ok {
+					if decl := c.P.declOf[o]; decl != nil && decl.Body != nil {
+						scope, sinfo, viaReturn = decl.Body, c.P.InfoFor(decl), true
+						ast.Inspect(decl.Body, func(z ast.Node) bool {
+							if r, ok := z.(*ast.ReturnStmt); ok && len(r.Results) == 1 {
+								if o := sinfo.Uses[identOf(r.Results[0])]; o != nil {
+									lenVars = append(lenVars, o)
+								}
+							}
+							return true
+						})
+					}
+				}
+			}
+		}
+		return true
+	})
+	isLenVar := func(e ast.Expr) bool {
+		o := sinfo.Uses[identOf(e)]
+		if o == nil {
+			o = sinfo.Defs[identOf(e)]
+		}
+		for _, l := range lenVars {
+			if o != nil && o == l {
+				return true
+			}
+		}
+		return false
+	}
+	// kinds mentioned in a case clause / condition whose body sets the length
+	adjusted := map[string]bool{}
+	ast.Inspect(scope, func(x ast.Node) bool {
 		var conds []ast.Expr
 		var body []ast.Stmt
 		switch s := x.(type) {
@@ -432,12 +490,16 @@ func ruleTokenWidth(c *Ctx) {
 				switch a := y.(type) {
 				case *ast.AssignStmt:
 					for _, l := range a.Lhs {
-						if identOf(l).Name == "length" {
+						if isLenVar(l) {
 							assignsLen = true
 						}
 					}
 				case *ast.IncDecStmt:
-					if identOf(a.X).Name == "length" {
+					if isLenVar(a.X) {
+						assignsLen = true
+					}
+				case *ast.ReturnStmt:
+					if viaReturn {
 						assignsLen = true
 					}
 				}
@@ -449,14 +511,17 @@ func ruleTokenWidth(c *Ctx) {
 		}
 		for _, ce := range conds {
 			ast.Inspect(ce, func(y ast.Node) bool {
-				if se, ok := y.(*ast.SelectorExpr); ok && strings.HasPrefix(se.Sel.Name, "Token") {
-					adjusted[se.Sel.Name] = true
+				if se, ok := y.(*ast.SelectorExpr); ok {
+					if k, ok := sinfo.Uses[se.Sel].(*types.Const); ok && typeHasSuffix(k.Type(), "parser.TokenType") {
+						adjusted[se.Sel.Name] = true
+					}
 				}
 				return true
 			})
 		}
 		return true
 	})
+	c.census("T15w", "variables / results carrying the token length", len(lenVars), 1)
 	for _, k := range kl {
 		// kinds that are not mapped to a semantic token at all need no width
 		c.check(adjusted[k], "T15w", fname, "width of "+k+" accounts for its delimiters", tokFd.Pos(),
